@@ -1040,3 +1040,13 @@ fn minimize_commonmark(text: &mut Vec<u8>, original_options: &Options) {
         }
     }
 }
+
+#[cfg(comrak_verif)]
+pub(crate) fn verif_shortest_unused_sequence(literal: &[u8], f: u8) -> usize {
+    shortest_unused_sequence(literal, f)
+}
+
+#[cfg(comrak_verif)]
+pub(crate) fn verif_longest_char_sequence(literal: &[u8], ch: u8) -> usize {
+    longest_char_sequence(literal, ch)
+}
